@@ -60,6 +60,8 @@ type Case struct {
 	// context, so every append that is not rejected still succeeds, however
 	// late, and observability must report it as a success.
 	ShortTO bool `json:"short_to,omitempty"`
+	// Unsampled (OpenTelemetry run only): the tracer provider does not sample.
+	Unsampled bool `json:"unsampled,omitempty"`
 }
 
 // truth is what really happened, counted by the harness itself.
